@@ -7,11 +7,13 @@ import (
 	"context"
 	"encoding/json"
 	"fmt"
+	"github.com/gr33nbl00d/caddy-revocation-validator/config"
 	"math/rand"
 	"os"
 	"path/filepath"
 	"sort"
 	"strings"
+	"time"
 
 	"github.com/caddyserver/caddy/v2"
 	"github.com/caddyserver/caddy/v2/caddyconfig/caddyfile"
@@ -486,22 +488,71 @@ func runC19(c *Ctx) {
 			if !valid && jOK {
 				c.Fail("", t.Name+": CRL checking enabled without work_dir was accepted", t)
 			}
+			// faithfulness: every option that was set has exactly the value it was given (both syntaxes agree, so JSON is judged)
+			if jOK {
+				wantMode := map[string]int{"prefer_ocsp": int(config.RevocationCheckModePreferOCSP), "prefer_crl": int(config.RevocationCheckModePreferCRL), "crl_only": int(config.RevocationCheckModeCRLOnly), "ocsp_only": int(config.RevocationCheckModeOCSPOnly), "disabled": int(config.RevocationCheckModeDisabled)}
+				wantStorage := map[string]int{"memory": int(config.Memory), "disk": int(config.Disk)}
+				wantSig := map[string]int{"none": int(config.SignatureValidationModeNone), "verify_log": int(config.SignatureValidationModeVerifyLog), "verify": int(config.SignatureValidationModeVerify)}
+				wantFetch := map[string]int{"fetch_actively": int(config.CRLFetchModeActively), "fetch_background": int(config.CRLFetchModeBackground)}
+				unfaithful := func(opt string, given, got interface{}) {
+					c.Fail("", fmt.Sprintf("%s: option %s was configured as %v but the effective value is %v", t.Name, opt, given, got), t)
+				}
+				if t.A.Mode != nil && t.J.Mode != wantMode[*t.A.Mode] {
+					unfaithful("mode", *t.A.Mode, t.J.Mode)
+				}
+				if t.J.HasCRLCfg {
+					if t.A.Storage != nil && t.J.Storage != wantStorage[*t.A.Storage] {
+						unfaithful("storage_type", *t.A.Storage, t.J.Storage)
+					}
+					if t.A.SigMode != nil && t.J.SigMode != wantSig[*t.A.SigMode] {
+						unfaithful("signature_validation_mode", *t.A.SigMode, t.J.SigMode)
+					}
+					if t.A.FetchMode != nil && t.J.FetchMode != wantFetch[*t.A.FetchMode] {
+						unfaithful("crl_fetch_mode", *t.A.FetchMode, t.J.FetchMode)
+					}
+					if t.A.CDPStrict != nil && t.J.CDPStrict != *t.A.CDPStrict {
+						unfaithful("crl_cdp_strict", *t.A.CDPStrict, t.J.CDPStrict)
+					}
+					if t.A.Interval != nil {
+						if d, err := time.ParseDuration(*t.A.Interval); err == nil && t.J.IntervalNs != int64(d) {
+							unfaithful("update_interval", *t.A.Interval, t.J.IntervalNs)
+						}
+					}
+					if t.A.WorkDir != nil && t.J.WorkDir != *t.A.WorkDir {
+						unfaithful("work_dir", *t.A.WorkDir, t.J.WorkDir)
+					}
+					if len(t.A.CRLUrls) != len(t.J.CRLUrls) || len(t.A.CRLFiles) != len(t.J.CRLFiles) || len(t.A.TrustedSig) != t.J.TrustedSig {
+						unfaithful("crl_urls/crl_files/trusted_signature_certs_files", fmt.Sprint(len(t.A.CRLUrls), len(t.A.CRLFiles), len(t.A.TrustedSig)), fmt.Sprint(len(t.J.CRLUrls), len(t.J.CRLFiles), t.J.TrustedSig))
+					}
+				}
+				if t.A.AIAStrict != nil && t.J.AIAStrict != *t.A.AIAStrict {
+					unfaithful("ocsp_aia_strict", *t.A.AIAStrict, t.J.AIAStrict)
+				}
+				if t.A.CacheDur != nil {
+					if d, err := time.ParseDuration(*t.A.CacheDur); err == nil && t.J.CacheNs != int64(d) {
+						unfaithful("default_cache_duration", *t.A.CacheDur, t.J.CacheNs)
+					}
+				}
+				if len(t.A.TrustedResp) != t.J.TrustedResp {
+					unfaithful("trusted_responder_certs_files", len(t.A.TrustedResp), t.J.TrustedResp)
+				}
+			}
 			// documented defaults
 			if jOK {
-				if t.A.Mode == nil && t.J.Mode != 0 {
+				if t.A.Mode == nil && t.J.Mode != int(config.RevocationCheckModePreferOCSP) {
 					c.Fail("", "default mode is not prefer_ocsp", t)
 				}
 				if t.J.HasCRLCfg {
-					if t.A.Storage == nil && t.J.Storage != 1 {
+					if t.A.Storage == nil && t.J.Storage != int(config.Disk) {
 						c.Fail("", "default storage is not disk", t)
 					}
 					if t.A.Interval == nil && t.J.IntervalNs != 30*60*1e9 {
 						c.Fail("", "default update_interval is not 30m", t)
 					}
-					if t.A.SigMode == nil && t.J.SigMode != 2 {
+					if t.A.SigMode == nil && t.J.SigMode != int(config.SignatureValidationModeVerify) {
 						c.Fail("", "default signature_validation_mode is not verify", t)
 					}
-					if t.A.FetchMode == nil && t.J.FetchMode != 0 {
+					if t.A.FetchMode == nil && t.J.FetchMode != int(config.CRLFetchModeActively) {
 						c.Fail("", "default crl_fetch_mode is not fetch_actively", t)
 					}
 					if t.A.CDPStrict == nil && t.J.CDPStrict {
